@@ -136,7 +136,28 @@ class Gen(object):
         return ('Ident', name), [Tk(name, 'id')]
 
     def number(self):
-        s = self.one(NUMS_ODD) if (self.cfg.odd_literals and self.chance(35)) else self.one(NUMS_COMMON)
+        if self.cfg.odd_literals and self.chance(35):
+            if self.chance(50):
+                s = self.one(NUMS_ODD)
+            else:
+                # compositional spelling: DecimalLiteral forms x ExponentPart forms (7.8.3)
+                ip = self.one(['0', '1', '7', '10', '42', '900'])
+                frac = self.one(['', '5', '05', '125'])
+                form = self.pick(4)
+                if form == 0:
+                    mant = ip
+                elif form == 1:
+                    mant = ip + '.' + frac
+                elif form == 2:
+                    mant = '.' + (frac or '5')
+                else:
+                    mant = ip + '.'
+                exp = ''
+                if self.chance(50):
+                    exp = self.one(['e', 'E']) + self.one(['', '+', '-']) + self.one(['0', '1', '7', '10', '007'])
+                s = mant + exp
+        else:
+            s = self.one(NUMS_COMMON)
         return ('Num', s), [Tk(s, 'num')]
 
     def string(self):
